@@ -142,6 +142,31 @@ for sh in (1, 2, 3):
     waitctx(1, sh, 4, tiers=T_ONLY, timeout=3000)
     waitctx(2, sh, 4, tiers=T_ONLY, timeout=3000)
 
+DQ = 'allocatorIS4_EEE'   # std::deque<d1::task*, cache_aligned_allocator<d1::task*>>::
+STREAM_CUT = [DQ + '9push_backERKS4_', DQ + '5emptyEv', DQ + '5frontEv', DQ + '9pop_frontEv', DQ + '5beginEv', DQ + '3endEv', DQ + '8pop_backEv',
+              DQ + '17_M_initialize_mapEm']
+SOP = {'push': 1, 'pop': 2, 'spec': 3, 'push2': 4}
+def stream_unit(a, b, K):
+    name = 'stream_%s_%s_k%d' % (a, b, K)
+    if name not in UNITS:
+        UNITS[name] = dict(wrapper='w_stream.cpp', mode='lcs', unroll=K, prune=True, exceptions=True, cut=STREAM_CUT,
+                           cxxflags=CXX_MAIL + ['-DSA=%d' % SOP[a], '-DSB=%d' % SOP[b]], threads={'vp_thr_sa': [''], 'vp_thr_sb': ['']})
+    return name
+
+def stream(a, b, pre, rounds, K=2, tiers=('quick', 'thorough'), timeout=900, extra=None):
+    sc = {'PRE': pre, 'ROUNDS': rounds}
+    sc.update(extra or {})
+    HARNESSES.append(dict(
+        name='stream_%s_%s_pre%d_r%d' % (a, b, pre, rounds), unit=stream_unit(a, b, K), harness='h_stream.c',
+        defines={'SA': SOP[a], 'SB': SOP[b]}, scenarios=[sc], tiers=list(tiers), timeout=timeout, cbmc=KISSAT, native_cflags=NATIVE,
+        desc='task_stream (2 lanes): thread a %s || thread b %s, %d task(s) pushed before; real push/try_push/pop/try_pop/pop_specific/look_specific, '
+             'population bit operations and lane mutex; lane queue (std::deque) cut to a bounded harness queue; at quiescence lane non-empty <=> population '
+             'bit set, no task popped twice, a final drain through the real pop obtains every remaining task' % (a, b, pre),
+        bounds={'threads': 2, 'free_rounds': rounds, 'forced_rounds': 2, 'loop_unroll': K, 'lanes': 2, 'tasks': pre + {'push': 1, 'push2': 2}.get(a, 0) + {'push': 1, 'push2': 2}.get(b, 0),
+                'isolation_tags': 'symbolic', 'lane_hints': 'symbolic'}))
+
+stream('push', 'pop', 1, 2)
+
 MANIFEST = dict(
   level_text='Bounded model checking of the real scheduler data structures that decide who runs a task: for 2-3 threads every interleaving (at '
              'single-IR-memory-operation granularity, bounded number of scheduling rounds) of (a) the per-thread ready deque arena_slot '
